@@ -310,12 +310,23 @@ class Executor:
     def st_While(self, st, state):
         """`while` loops are outside the subset unless the target supplies a SUMMARY for them (sidecar keyed by the source text of the test): a function that overwrites the
         state with the loop's total effect.  A summary is an assumption about the loop, not a proof of it -- every use is recorded in self.assumed_summaries and reported."""
-        sm = getattr(self, "while_summaries", {}).get(ast.unparse(st.test))
+        text = ast.unparse(st.test)
+        ws = getattr(self, "while_summaries", {})
+        sm = ws.get(text) or next((v for k, v in ws.items() if hasattr(k, "fullmatch") and k.fullmatch(text)), None)
         if sm is None:
             raise Unsupported("while loop (line %d); needs a summary" % st.lineno)
         if not hasattr(self, "assumed_summaries"):
             self.assumed_summaries = []
         self.assumed_summaries.append("while %s (line %d)" % (ast.unparse(st.test), st.lineno))
+        # every name the loop body binds (assignment targets, loop variables, lists it appends to) is unknown afterwards; the summary adds what IS known
+        names = set()
+        for n_ in ast.walk(st):
+            if isinstance(n_, ast.Name) and isinstance(n_.ctx, ast.Store):
+                names.add(n_.id)
+            if isinstance(n_, ast.Call) and isinstance(n_.func, ast.Attribute) and n_.func.attr in ("append", "add", "pop", "extend", "update") and isinstance(n_.func.value, ast.Name):
+                names.add(n_.func.value.id)
+        for nm in sorted(names):
+            state.env[nm] = Opaque("after-while:%s" % nm)
         r = sm(self, state)
         return r if isinstance(r, list) else [(state, None)]
 
@@ -543,6 +554,9 @@ class Executor:
             elif self._loop_contract_for(st) is not None:
                 out.extend(self._for_with_contract(st, s, it, self._loop_contract_for(st)))
                 continue
+            elif isinstance(it, Opaque) and getattr(it, "contract", None) is not None:
+                out.extend(self._for_with_contract(st, s, it, it.contract))
+                continue
             elif isinstance(it, Opaque) and self._loop_is_local_arithmetic(st):
                 # an unknown number of iterations of a body that only re-assigns local names with call-free expressions: its whole effect is
                 # over-approximated by havoc'ing those names (sound: nothing else can change), no invariant needed
@@ -561,8 +575,17 @@ class Executor:
 
     # ---- loops under contract (sidecar: keyed by the source text of the iterable, e.g. "enumerate(train_loader)")
     def _loop_contract_for(self, st):
+        """sidecar lookup: the key is the source text of the iterable, or a compiled regular expression matched against it (so that renaming a local does not lose the contract)"""
         lc = getattr(self, "loop_contracts", None)
-        return lc.get(ast.unparse(st.iter)) if lc else None
+        if not lc:
+            return None
+        text = ast.unparse(st.iter)
+        if text in lc:
+            return lc[text]
+        for k, v in lc.items():
+            if hasattr(k, "fullmatch") and k.fullmatch(text):
+                return v
+        return None
 
     def _for_with_contract(self, st, s, it, c):
         """Hoare rule for  `for target in iterable: body`  with an inductive invariant over ghost state:
@@ -572,6 +595,14 @@ class Executor:
            Frame check: whatever the body changes in glob / heap beyond the declared frame makes the run leave the subset."""
         if not hasattr(self, "vcs"):
             self.vcs = []
+        c.node = st                 # the contract may look at the loop it is attached to (which locals it assigns, under which tests) instead of naming them
+        try:
+            return self._for_with_contract_checked(st, s, it, c)
+        except (KeyError, AttributeError, IndexError, TypeError) as e:
+            # the sidecar contract does not fit the loop as it is written now (a local it speaks about is gone): the function is no longer under THIS contract -- undecided
+            raise Unsupported("the loop contract '%s' does not fit the loop at line %d any more (%s: %s)" % (c.name, st.lineno, type(e).__name__, e))
+
+    def _for_with_contract_checked(self, st, s, it, c):
         n = c.count(s)
         conj = lambda pc: z3.And(*[to_z3(x) for x in pc]) if pc else z3.BoolVal(True)
         for nm, g in c.inv(s, z3.IntVal(0)):
@@ -1189,8 +1220,21 @@ class Executor:
         return out
 
     # ------------------------------------------------------------------------------------------------ calls
+    def _contract_for_text(self, text):
+        lc = getattr(self, "loop_contracts", None)
+        if not lc:
+            return None
+        if text in lc:
+            return lc[text]
+        return next((v for k, v in lc.items() if hasattr(k, "fullmatch") and k.fullmatch(text)), None)
+
     def ex_Call(self, e, state):
         out = []
+        if isinstance(e.func, (ast.Name, ast.Attribute)) and self._contract_for_text(ast.unparse(e)) is not None:
+            # an iterable described by a loop contract, evaluated away from the `for` (bound to a local first): it stays symbolic and carries its contract along
+            o = Opaque("iterable:" + ast.unparse(e))
+            o.contract = self._contract_for_text(ast.unparse(e))
+            return [(state, o)]
         if any(k.arg is None for k in e.keywords):
             raise Unsupported("**kwargs (line %d)" % e.lineno)
         if any(isinstance(a, ast.Starred) for a in e.args):
@@ -1229,6 +1273,15 @@ class Executor:
             if name in self.havoc or name.split(".")[0] in self.havoc:
                 self.havocs_used.append(name)
                 return [(s, Opaque(name))]
+            fd = getattr(self, "module_funcs", {}).get(name)
+            if fd is not None and getattr(self, "_inline_depth", 0) < 6:
+                # a function of the SAME source file without a contract of its own (typically a private helper a block was extracted into): its real body is executed in place
+                self._inline_depth = getattr(self, "_inline_depth", 0) + 1
+                try:
+                    self.inlined = getattr(self, "inlined", set()) | {name}
+                    return self.call_closure(Closure(fd, {}), list(args), kw, s)
+                finally:
+                    self._inline_depth -= 1
             raise Unsupported("call to %s (line %s)" % (name, getattr(node, "lineno", "?")))
         if isinstance(f, tuple) and f and f[0] == "method":
             return self.call_method(f[1], f[2], args, kw, s)
@@ -1251,6 +1304,15 @@ class Executor:
             if key in self.havoc or ("*." + meth) in self.havoc:
                 self.havocs_used.append(key)
                 return [(s, Opaque(key))]
+            md = getattr(self, "owner_methods", {}).get(meth)
+            if md is not None and getattr(self, "_inline_depth", 0) < 6:
+                # a method of the class under contract (or of a base class in the same file) that has no contract of its own: executed in place on the receiver
+                self._inline_depth = getattr(self, "_inline_depth", 0) + 1
+                try:
+                    self.inlined = getattr(self, "inlined", set()) | {"%s.%s" % (o.cls, meth)}
+                    return self.call_closure(Closure(md, {}), [o] + list(args), kw, s)
+                finally:
+                    self._inline_depth -= 1
             raise Unsupported("method %s" % key)
         if isinstance(o, Opaque):
             self.havocs_used.append(o.label + "." + meth)
@@ -1292,7 +1354,7 @@ class Executor:
         s.env = env
         out = []
         for s2, o in self.exec_block(fn.body, s):
-            s2.env = saved
+            s2.env = dict(saved)            # one copy of the caller's frame per outcome: paths that forked inside the callee must not share the caller's locals
             if isinstance(o, Returned):
                 out.append((s2, o.value))
             elif isinstance(o, Raised):
